@@ -23,12 +23,13 @@ import numpy as np
 from runner import Infra, TieBroken
 
 ID = "C18"
-LEAN_MODULES = ["PyYetiVerif.Props.C18", "PyYetiVerif.Audit.C18"]
+LEAN_MODULES = ["PyYetiVerif.Props.C18", "PyYetiVerif.Props.C18Up", "PyYetiVerif.Props.C18Idx", "PyYetiVerif.Props.C18Xyz", "PyYetiVerif.Audit.C18"]
 AUDIT_FILE = "PyYetiVerif/Audit/C18.lean"
 THEOREMS = [
     "PyYetiVerif.C18." + n
     for n in (
-        "base_sets_disjoint superset_is_union superset_is_union_bitwise user_sets_separate inSet_subword table_partition mksetpv_refuses_iff mksetpv_spec mksetpv_named expanddof_digits expanddof2_spec lookup_sound lookup_complete mkdofpv_strict_iff mkdofpv_spec mkdofpv_positions mkdofpv_set mat_intersect_spec find_subseq_spec list_intersect_spec flippv_spec index2bool_spec normIndex_spec find_vals_spec find_rows_spec find_unique_spec find_duplicates_spec index2slice_cases index2slice_spec merge_lists_spec merge_lists_inserts mkusetmask_plus mksetpv_plus make_uset_sets make_uset_accepts make_uset_sets_partial make_uset_split_rows make_uset_ids make_uset_coords_partial upasetpv_spec scatter_spec upqsetpv_length upqsetpv_one_upstream qupOwn_spec"
+        "base_sets_disjoint superset_is_union superset_is_union_bitwise user_sets_separate inSet_subword table_partition mksetpv_refuses_iff mksetpv_spec mksetpv_named expanddof_digits expanddof2_spec lookup_sound lookup_complete mkdofpv_strict_iff mkdofpv_spec mkdofpv_positions mkdofpv_set mat_intersect_spec find_subseq_spec list_intersect_spec flippv_spec index2bool_spec normIndex_spec find_vals_spec find_rows_spec find_unique_spec find_duplicates_spec index2slice_cases index2slice_spec merge_lists_spec merge_lists_inserts mkusetmask_plus mksetpv_plus make_uset_sets make_uset_accepts make_uset_sets_partial make_uset_split_rows make_uset_ids make_uset_coords_partial upasetpv_spec scatter_spec upqsetpv_length upqsetpv_one_upstream qupOwn_spec "
+        "upqsetpv_fuel_stable upqsetpv_fuel_suffices upqsetpv_cycle_diverges cyclic_not_acyclic QConn_iff upqsetpv_spec canFlag_of_flagged separate_of_check upqIdx_eq_upasetpv upasetpv_perm mat_intersect_order mat_intersect_keep1 mat_intersect_keep2 mat_intersect_keep0 mat_intersect_keep_other findse_spec findse_find? nodeIds_spec nodeIds_make xyz_triple_exact find_xyz_triples_exact"
     ).split()
 ]
 TRUSTED = [
@@ -49,6 +50,12 @@ TRUSTED = [
     "correspondence-checked against list(range(n))[slice(a, b, c)] (stream pyslice), not derived from CPython",
     "harness/props/c18_nas.py builds nas2cam-like dictionaries from a known superelement tree; the expected "
     "upasetpv / upqsetpv vectors used by the oracle come from that construction",
+    "find_xyz_triples: np.linalg.cond / inv / norm, np.allclose are modelled by exact rational inequalities (squared "
+    "where a square root occurs); the model reports `borderline` when two sides are within 1e-9 (relative) and those "
+    "inputs are skipped; a non-singular block on the grid 1/16 with entries up to 128 has cond < 1e12, so `cond > 1/eps` "
+    "is `det = 0` there",
+    "n2p._findse / n2p._get_node_ids are private helpers: they are compared directly while they exist (a refactoring "
+    "that removes them skips those two streams; upasetpv / upqsetpv, which use them, stay compared)",
 ]
 RULE = (
     "USET tables are built with n2p.make_uset from distinct ids (grids with one set per grid or one set per DOF, "
@@ -56,10 +63,16 @@ RULE = (
     "base-set masks, Nastran-style words carrying superset bits, and random 32-bit words; major/minor are named "
     "sets, '+' combinations and integer masks; requests are 1-D ids or 2-D [id, component-list] rows with present "
     "and absent DOF, strict and non-strict; nas2cam-like dictionaries are generated from a random superelement tree "
-    "(1-4 upstream SEs, depth <= 3; CSUPER-type ids, SECONCT-type internal ids through upids, reordering maps, maps "
-    "that skip DOF, SEs without q-set), each also with one inconsistency (15 kinds: missing entries, out-of-range / "
-    "negative / short / permuted maps, scale != 1, dropped / extra / repeated dnids, short upids, selist rows "
-    "dropped / repeated), plus the three nas2cam files of pyYeti's own tests; locate inputs are short integer "
+    "(1-7 upstream SEs, depth <= 4, up to 3 upstream SEs per SE, every tenth with a forced chain of depth 3 or 4; "
+    "CSUPER-type ids, SECONCT-type internal ids through upids, reordering maps at every level, maps that skip DOF, SEs "
+    "without q-set, boundary grids shared by two upstream SEs), each also with one inconsistency (16 kinds: missing "
+    "entries, out-of-range / negative / short / permuted maps, scale != 1, dropped / extra / repeated dnids, short "
+    "upids, selist rows dropped / repeated, a cyclic selist), the two dictionaries of the Lean examples, plus the three "
+    "nas2cam files of pyYeti's own tests; selists with repeated / absent SEs for _findse, tables with rows removed for "
+    "_get_node_ids; mat_intersect with keep 0/1/2/3/5 on distinct rows in shuffled and descending order; rigid-body "
+    "matrices for find_xyz_triples on the grid 1/16 (1-4 nodes at quarter coordinates, signed-permutation / sheared / "
+    "non-orthogonal local systems, scales 1 2 3 4 10, rotation rows, deleted rows, perturbed rotation entries, tol 0.01 "
+    "and 0.3, the two docstring examples; 15% consist of exact triples only); locate inputs are short integer "
     "vectors/matrices over small alphabets (to force repeats), index vectors with negative and out-of-range "
     "entries, arithmetic progressions (ascending, descending, ending at index 0) and near-progressions, fixed edge "
     "cases (empty, single, all-equal, chains, a difference exactly tol). A case is one call compared exactly; "
@@ -69,9 +82,12 @@ RULE = (
 ASSUMPTIONS = [
     "nasset words and ids are non-negative integers below 2^63 (int64 column); (id, dof) keys of a table are distinct",
     "locate inputs are integers or dyadic floats k/4 (also float32 / int32 / mixed dtypes), so every float comparison is exact",
-    "selist describes a tree (no SE is its own upstream through a cycle): upqsetpv recurses without a bound, the model "
-    "with fuel len(selist)+2; maps hold integer-valued floats; make_uset coordinates are copied, not computed "
-    "(integer-valued xyz in the correspondence)",
+    "upqsetpv recurses without a bound, the model with fuel len(selist)+1: proved equal on an acyclic selist "
+    "(upqsetpv_fuel_suffices); on a cyclic selist the model's `.recursion` is compared with Python's RecursionError "
+    "(a call chain longer than len(selist)+1 repeats an SE, and the routine is a function of the SE id alone); maps hold "
+    "integer-valued floats; make_uset coordinates are copied, not computed (integer-valued xyz in the correspondence)",
+    "upqsetpv_spec: the dictionary has separate connections (Separate; decidable test separateB, evaluated by the "
+    "driver on every generated dictionary and on the nas2cam files of pyYeti's tests)",
 ]
 PARTIAL = (
     "make_uset coordinates (xyz) are proved only for the documented request forms (make_uset_coords_partial): the xyz "
@@ -79,12 +95,23 @@ PARTIAL = (
     "[[1,123],[1,456]], the code writes the xyz row of each request row into ONE table row (rows 1 and 2 of the grid) "
     "and leaves the other rows NaN, and a row [id,1] takes the next six xyz rows (ValueError when fewer remain) - "
     "modelled and correspondence-checked (branch make_uset-xyz:unset-rows), no property is claimed there; the nasset "
-    "column is proved at full strength (make_uset_sets) since fix a37d9b6. upqsetpv: proved are the length, the "
-    "index-assignment law (scatter_spec), the flags of one upstream SE (qupOwn_spec) and the exact result for one "
-    "upstream SE without own upstream SEs and without maps (upqsetpv_one_upstream); the multi-level recursion, several "
-    "upstream SEs and the maps branches are modelled, correspondence-checked and covered by the construction oracle, "
-    "not proved. Float / mixed int-float inputs are dyadic (k/4) and modelled over scaled Int; non-dyadic floats "
-    "(rounding in tol*max, correlate, abs(diff) <= tol) are outside the exact model"
+    "column is proved at full strength (make_uset_sets) since fix a37d9b6. upqsetpv is proved at every depth, for "
+    "several upstream SEs and all maps forms (upqsetpv_spec: flag = connected to an upstream q-set DOF) on dictionaries "
+    "with separate connections (Separate: the places of a connection are distinct and as many as the upstream a-set, "
+    "places shared by two upstream SEs are flagged alike; decidable test separateB, true on every generated dictionary "
+    "and on the three nas2cam files); outside it - a later upstream SE overwriting the flag of an earlier one at a "
+    "shared place (counterexample overlapNas: the hypothesis is necessary), numpy broadcasting of a one-element flag "
+    "vector - the routine is modelled and correspondence-checked, nothing is claimed. Recursion: proved that the fuel "
+    "selist.length+1 is never used up on an acyclic selist and that two SEs naming each other use up every fuel; that "
+    "every other cyclic selist makes the real code recurse for ever is argued (pigeonhole), not proved, and tied by the "
+    "recursion-error branch. n2p.find_xyz_triples is modelled with exact rational decisions and proved on exact data "
+    "(find_xyz_triples_exact: a matrix made of x, y, z triples of nodes in orthogonal local systems at any scale - every "
+    "row is marked, with the node's location and scale); on inexact data (entries within the tolerances, rotation rows, "
+    "missing rows - the documented way the routine can be tricked) it is tied by the correspondence only, inputs with a "
+    "comparison within 1e-9 of its threshold or with a singular window of equal column norms are skipped and counted, "
+    "and cond(T1) > 1/eps is modelled as det T1 = 0. formtran / formulvs / formdrm / addulvs (matrix routines built on "
+    "the set vectors) and usetprt (text) are not modelled. Float / mixed int-float inputs are dyadic (k/4) and modelled over "
+    "scaled Int; non-dyadic floats (rounding in tol*max, correlate, abs(diff) <= tol) are outside the exact model"
 )
 MANIFEST = {
     "level_text": "proof: lattice theorems decided on the table generated from the source; mksetpv (also with '+' "
@@ -92,11 +119,18 @@ MANIFEST = {
     "rows; coordinates for the documented request forms), upasetpv and all "
     "locate helpers (mat_intersect, find_subseq, list_intersect, flippv, index2bool, find_vals, find_rows, find_unique, "
     "find_duplicates, index2slice against a model of CPython slicing, merge_lists incl. where new items are inserted) "
-    "proved against their defining relations for all inputs; exact correspondence",
+    "proved against their defining relations for all inputs; mat_intersect for every keep value with the looped side in "
+    "its original order; upqsetpv up the whole superelement tree (several upstream SEs, any depth, maps re-ordering: "
+    "flag = connected to an upstream q-set DOF, by induction on the recursion) for dictionaries with separate "
+    "connections, termination of its recursion exactly on acyclic selists, the places of its connections = upasetpv, "
+    "upasetpv with a permutation map is a permutation of the boundary rows; _findse, _get_node_ids; find_xyz_triples "
+    "finds every node of a matrix of exact triples (location and scale); exact correspondence",
     "level_note": "library kernels (argsort, searchsorted, correlate, pandas / numpy indexing and index assignment, "
-    "CPython slicing) are modelled and correspondence-checked; upqsetpv beyond one upstream level is tied "
-    "(correspondence + construction oracle) but not proved; make_uset coordinates with split component lists "
-    "(undocumented) are only modelled",
+    "CPython slicing) are modelled and correspondence-checked; upqsetpv outside `Separate` (a later upstream SE "
+    "overwriting an earlier flag at a shared place, broadcasting) is tied (correspondence + construction oracle) but "
+    "nothing is claimed; make_uset coordinates with split component lists (undocumented) are only modelled; "
+    "find_xyz_triples on inexact data (tolerance rule) is tied numerically (exact pv, coordinates / scales to 1e-9) but "
+    "not proved; the matrix routines (formtran, formulvs, formdrm, addulvs) are not modelled",
     "technique": "Lean 4 proof about executable models + ast translator for mkusetmask + exact differential "
     "correspondence + model-free oracle",
 }
@@ -150,6 +184,8 @@ def _kind(e):
         return "value-error"
     if isinstance(e, TypeError):
         return "type-error"
+    if isinstance(e, RecursionError):
+        return "recursion-error"
     return "other:" + type(e).__name__
 
 
@@ -553,8 +589,38 @@ def _nas_streams(ctx, cs):
             cs.add("upqsetpv" + tag, "upq %d | %s" % (s_, secs), _nas_reply(r, True), inp,
                    nontrivial=r[0] == "ok" and bool(np.any(r[1])), branch=br)
 
+    # the dictionary of Props/C18Up.lean `overlapNas`: a later upstream SE overwrites the flag an earlier one set at a
+    # shared place (outside `Separate`; index assignment, the later entry wins) - and the tree of `treeNas`
+    q, b, o = 4194304, 2, 4
+    overlap = N.from_plain({"selist": [[10, 0], [20, 0], [0, 0]],
+                            "uset": {"10": [[91, 0, q]], "20": [[91, 0, b], [92, 0, q]], "0": [[91, 0, b], [92, 0, b]]},
+                            "dnids": {"10": [91], "20": [91, 92]}, "maps": {"10": [], "20": [], "0": []}, "upids": {}})
+    both(overlap, "-fixed", [10, 20], [0])
+    cs.add("upqsetpv-separate", "sep | %s" % N.serialize(overlap), "ok 0", {"nas": N.to_plain(overlap)},
+           nontrivial=True, branch="upqsetpv:later-upstream-overwrites")
+    g = lambda i, w: [[i, d, w] for d in range(1, 7)]
+    tree = N.from_plain({
+        "selist": [[30, 10], [10, 0], [20, 0], [0, 0]],
+        "uset": {"30": g(1, b) + [[91, 0, q]], "10": [[91, 0, b]] + g(5, b) + g(2, o) + [[92, 0, q]],
+                 "20": g(7, b) + [[93, 0, b]],
+                 "0": g(7, b) + [[91, 0, b]] + g(5, b) + [[93, 0, b], [92, 0, b], [50, 0, o]]},
+        "dnids": {"30": [5, 91], "10": [91, 5, 92], "20": [7, 93]},
+        "maps": {"30": [[1, 1], [2, 1], [3, 1], [4, 1], [5, 1], [6, 1], [0, 1]], "10": [], "20": [], "0": []},
+        "upids": {}})
+    both(tree, "-fixed", [30, 10, 20], [0, 10],
+         {"kind": {}, "upa": {30: [1, 2, 3, 4, 5, 6, 0]}, "style": "lean-example",
+          "upq": {0: [0, 0, 0, 0, 0, 0, 1, 0, 0, 0, 0, 0, 0, 1, 1, 0]}})
+    ctx.count("upqsetpv:lean-examples")
+    # SECONCT type connection whose downstream `upids` is EMPTY: pandas answers the empty boolean indexer with a
+    # ValueError (an indexer of any other wrong length is an IndexError)
+    emp = N.from_plain({"selist": [[0, 0], [40, 0]], "uset": {"0": [[30, 0, b]], "40": [[30, 0, q], [42, 0, o]]},
+                        "dnids": {"40": [2000000002]}, "maps": {"40": []}, "upids": {"0": [], "40": [0, 0]}})
+    both(emp, "-fixed", [40], [0])
+    ctx.count("nas-damage:upids-empty")
+    nsep = 0
     for it in range(ctx.pick(150, 1500)):
-        nas, info = N.gen_nas(rng)
+        # every tenth dictionary has a forced chain of depth 3 or 4 below the residual
+        nas, info = N.gen_nas(rng, deep=(3 + it // 10 % 2) if it % 10 == 0 else None)
         ses = info["order"]
         kind = {}
         for c in ses:
@@ -562,25 +628,47 @@ def _nas_streams(ctx, cs):
             kind[c] = "seconct" if any(v > N.INTERNAL for v in dn) else "csuper"
         both(nas, "", ses + [rng.choice([0, 999])], [0] + ses + ([999] if rng.random() < 0.2 else []),
              {"kind": kind, "upa": info["expected_upa"], "upq": info["expected_upq"], "style": info["style"]})
+        # the hypothesis of upqsetpv_spec (separate connections) holds on every consistent generated dictionary
+        cs.add("upqsetpv-separate", "sep | %s" % N.serialize(nas), "ok 1", {"nas": N.to_plain(nas)},
+               nontrivial=len(ses) > 1, branch="upqsetpv:separate")
+        nsep += 1
         depth2 = any(info["parent"][c] != 0 for c in ses)
         if depth2:
             ctx.count("upqsetpv:recursive")
+        if info["depth"] >= 3:
+            ctx.count("upqsetpv:depth-3")
+        if info["depth"] >= 4:
+            ctx.count("upqsetpv:depth-4")
+        if any(len(v) >= 2 for v in info["children"].values()):
+            ctx.count("upqsetpv:several-upstream")
+        if any(len(v) >= 2 for k_, v in info["children"].items() if k_ != 0):
+            ctx.count("upqsetpv:several-upstream-above-residual")
+        flagged = lambda c: any(info["expected_upq"].get(info["parent"][c], []))
+        if any(flagged(c) for c in info["reordered"]):
+            ctx.count("upqsetpv:maps-reordered")
+        if any(flagged(c) and info["parent"][c] != 0 for c in info["reordered"]):
+            ctx.count("upqsetpv:maps-reordered-above-residual")
+        if info["shared"]:
+            ctx.count("upqsetpv:shared-boundary")
         if info["style"] == "noq":
             ctx.count("upqsetpv:spoint-rule")
         if any(info["skipped"].values()):
             ctx.count("upasetpv:maps-skip")
         if it < 3 * len(N.DAMAGES) or rng.random() < 0.6:
             bad, what, cbad = N.damage(rng, nas, N.DAMAGES[it % len(N.DAMAGES)] if it < 3 * len(N.DAMAGES) else None)
-            try:
-                both(bad, "-damaged", sorted({cbad} | {c for c in ses if rng.random() < 0.5}),
-                     [0] + [c for c in ses if rng.random() < 0.3])
-                ctx.count("nas-damage:" + what)
-            except RecursionError:
-                ctx.skip("damaged dictionary with a cyclic selist")
+            both(bad, "-damaged", sorted({cbad} | {c for c in ses if rng.random() < 0.5}),
+                 [0] + ([cbad] if what == "selist-cycle" else []) + [c for c in ses if rng.random() < 0.3])
+            ctx.count("nas-damage:" + what)
     for name, nas in N.real_dictionaries(ctx.repo):
         sl = np.asarray(nas["selist"]).tolist()
         both(nas, "-real", sorted({r_[0] for r_ in sl}), sorted({r_[1] for r_ in sl} | {r_[0] for r_ in sl}))
         ctx.count("nas-real-dictionary")
+        # the hypothesis of upqsetpv_spec holds on the nas2cam files of pyYeti's own tests (two upstream SEs of the
+        # csuper / extseout models are attached to the same boundary grids: those places cannot carry a flag)
+        cs.add("upqsetpv-separate-real", "sep | %s" % N.serialize(nas), "ok 1", {"file": name}, nontrivial=True,
+               branch="upqsetpv:separate-real")
+    ctx.extra["upqsetpv_spec_hypothesis"] = (
+        "Separate (driver op `sep`) holds on all %d consistent generated dictionaries of this run" % nsep)
 
 
 def _canon_slice(r):
@@ -852,6 +940,225 @@ def _float_streams(ctx, cs):
                branch="find_unique:" + ("ok" if r[0] == "ok" else r[0]))
 
 
+# ---- n2p.find_xyz_triples on dyadic rigid-body matrices -----------------------------------------
+XDEN = 16
+
+
+def _skew(p):
+    x, y, z = p
+    return [[0, z, -y], [-z, 0, x], [y, -x, 0]]
+
+
+def _gen_rb(rng):
+    """rows (6 Fractions each, multiples of 1/16, |.| <= 128) of a rigid-body matrix: nodes at quarter coordinates in
+    signed-permutation / slightly sheared / clearly non-orthogonal local systems, scaled, with rotation rows, deleted
+    rows, perturbed rotation columns; returns (rows, tol as (tn, td), tags)"""
+    from fractions import Fraction as F
+
+    tags = set()
+    rows = []
+    exact = rng.random() < 0.15  # only exact triples: the domain of find_xyz_triples_exact
+    if exact:
+        tags.add("exact-only")
+    for _ in range(rng.randint(1, 4)):
+        p = [F(rng.randint(-32, 32), 4) for _ in range(3)]
+        if rng.random() < 0.15:
+            p = [F(0)] * 3
+        perm = rng.sample(range(3), 3)
+        T = [[F(0)] * 3 for _ in range(3)]
+        for i, j in enumerate(perm):
+            T[i][j] = F(rng.choice([1, 1, -1]))
+        r0 = 1.0 if exact else rng.random()
+        if r0 < 0.12:
+            T[0][(perm[0] + 1) % 3] = F(1, 4)  # slightly sheared: within tol = 0.3 only
+            p = [F(int(v)) for v in p]
+            tags.add("sheared")
+        elif r0 < 0.2:
+            T[rng.randrange(3)] = [v * 2 for v in T[rng.randrange(3)]]  # unequal axes / repeated direction
+            tags.add("non-orthogonal")
+        sc = F(rng.choice([1, 1, 1, 2, 4, 10, 3]))
+        base = [[F(int(i == j)) for j in range(3)] + [F(v) for v in _skew(p)[i]] for i in range(3)]
+        blk = [[sc * sum(T[i][k] * base[k][j] for k in range(3)) for j in range(6)] for i in range(3)]
+        if not exact and rng.random() < 0.3:
+            i, j = rng.randrange(3), 3 + rng.randrange(3)
+            blk[i][j] += F(rng.choice([1, 2, 4, 8, 16, 32]), 16) * rng.choice([1, -1])
+            tags.add("perturbed")
+        if not exact and rng.random() < 0.15:
+            del blk[rng.randrange(3)]
+            tags.add("row-deleted")
+        rows += blk
+        if not exact and rng.random() < 0.4:
+            rows += [[F(0)] * 3 + [sc * T[i][j] for j in range(3)] for i in range(3)]
+            tags.add("rotation-rows")
+    tol = (1, 100) if rng.random() < 0.8 else (3, 10)
+    return rows, tol, tags
+
+
+def _xyz_singular_window(rows, tol):
+    """a window whose translation block is exactly singular but has three equal column norms (the only place where the
+    outcome would hang on the numerical condition number / a LinAlgError of inv): outside the domain"""
+    from fractions import Fraction as F
+
+    d = F(tol[0], tol[1]) + F(1, 100000)
+    for j in range(len(rows) - 2):
+        A = [r[:3] for r in rows[j:j + 3]]
+        det = (A[0][0] * (A[1][1] * A[2][2] - A[1][2] * A[2][1]) - A[0][1] * (A[1][0] * A[2][2] - A[1][2] * A[2][0])
+               + A[0][2] * (A[1][0] * A[2][1] - A[1][1] * A[2][0]))
+        if det != 0:
+            continue
+        s2 = sum(v * v for r in A for v in r) / 3
+        if s2 == 0:
+            continue
+        cols = [sum(A[i][j_] ** 2 for i in range(3)) for j_ in range(3)]
+        if all((1 - d) ** 2 * s2 <= c <= (1 + d) ** 2 * s2 for c in cols):
+            return True
+    return False
+
+
+def _xyz_impl(rows, tol):
+    n2p, _ = _mods()
+    a = np.array([[float(v) for v in r] for r in rows], dtype=float).reshape(-1, 6)
+    r = _call(n2p.find_xyz_triples, a, tol=tol[0] / tol[1])
+    if r[0] != "ok":
+        return r[0]
+    t = r[1]
+    return {"pv": [int(v) for v in t.pv], "coords": np.asarray(t.coords).tolist(),
+            "scales": np.asarray(t.scales).tolist(), "model_scale": float(t.model_scale)}
+
+
+def _xyz_match(impl, got):
+    """exact pv, numeric coordinates / scales / model scale (1e-9 relative)"""
+    from fractions import Fraction as F
+
+    if not isinstance(impl, dict) or not got.startswith("ok"):
+        return False
+    secs = [x.strip() for x in got[2:].split("|")]
+    if len(secs) != 4:
+        return False
+    pv = [int(v) for v in secs[0].split()]
+    if pv != impl["pv"]:
+        return False
+    close = lambda a, b: abs(a - b) <= 1e-9 * max(1.0, abs(a), abs(b))
+    cz = [x.strip() for x in secs[1].split(";")] if secs[1] else []
+    if len(cz) != len(pv) or len(secs[2].split()) != len(pv):
+        return False
+    for c, s2, ci, si in zip(cz, secs[2].split(), impl["coords"], impl["scales"]):
+        if c == "nan":
+            if not (all(v != v for v in ci) and si != si and s2 == "nan"):
+                return False
+            continue
+        if any(v != v for v in ci) or si != si:
+            return False
+        if not all(close(float(F(q)), v) for q, v in zip(c.split(), ci)):
+            return False
+        if not close(float(F(s2)) ** 0.5, si):
+            return False
+    return close(float(F(secs[3])), impl["model_scale"])
+
+
+def _xyz_stream(ctx, cs):
+    rng = ctx.rng
+    from fractions import Fraction as F
+
+    doc1 = [[1, 0, 0, 0, 15, -10], [0, 1, 0, -15, 0, 5], [0, 0, 1, 10, -5, 0], [0, 0, 0, 1, 0, 0], [0, 0, 0, 0, 1, 0],
+            [0, 0, 0, 0, 0, 1], [10, 0, 0, 0, 150, -100], [0, 10, 0, -150, 0, 50], [0, 0, 10, 100, -50, 0]]
+    doc2 = [[0, 1, 0, 0, 0, 2], [0, 0, 1, 0, -2, 0], [1, 0, 0, 0, 0, 0], [0, 1, 0, 0, 0, 5], [0, 0, 1, 0, -5, 0]]
+    fixed = [([[F(v) for v in r] for r in m], (1, 100), {"docstring"}) for m in (doc1, doc2)]
+    for it in range(ctx.pick(250, 2500)):
+        rows, tol, tags = fixed[it] if it < len(fixed) else _gen_rb(rng)
+        if _xyz_singular_window(rows, tol):
+            ctx.skip("find_xyz_triples: a singular window with equal column norms (decided by cond / inv numerics)")
+            continue
+        impl = _xyz_impl(rows, tol)
+        line = "xyz %d %d %d | %s" % (XDEN, tol[0], tol[1], " ; ".join(" ".join(str(int(v * XDEN)) for v in r) for r in rows))
+        if isinstance(impl, dict):
+            k = sum(impl["pv"])
+            br = "xyz:" + ("none" if k == 0 else "all-rows" if k == len(rows) else "some-rows")
+        else:
+            br = "xyz:" + impl
+        for t in tags:
+            ctx.count("xyz-input:" + t)
+        cs.add("find_xyz_triples", line, impl, {"rows": [[str(v) for v in r] for r in rows], "tol": list(tol)},
+               nontrivial=isinstance(impl, dict) and sum(impl["pv"]) > 0, branch=br)
+
+
+def _index_streams(ctx, cs):
+    """n2p._findse / n2p._get_node_ids (private helpers of upasetpv / upqsetpv; skipped when a refactoring removed
+    them), mat_intersect with every value of keep on data whose matching rows are not in sorted order"""
+    n2p, locate = _mods()
+    rng = ctx.rng
+    findse = getattr(n2p, "_findse", None)
+    nodeids = getattr(n2p, "_get_node_ids", None)
+    ctx.extra["private_helpers_present"] = {"_findse": findse is not None, "_get_node_ids": nodeids is not None}
+    for _ in range(ctx.pick(150, 1500)):
+        if findse is None:
+            ctx.skip("n2p._findse is gone (private helper)")
+            break
+        n = rng.randint(0, 6)
+        sl = [[rng.choice([0, 10, 20, 30, 101]), rng.choice([0, 0, 10, 20])] for _ in range(n)]
+        se = rng.choice([0, 10, 20, 30, 101, 7])
+        r = _call(findse, {"selist": np.array(sl, dtype=np.int64).reshape(-1, 2)}, se)
+        impl = "ok %d" % int(r[1]) if r[0] == "ok" else r[0]
+        first = [k for k, row in enumerate(sl) if row[0] == se]
+        br = "findse:" + ("absent" if not first else "repeated" if len(first) > 1 else "once")
+        cs.add("findse", "findse %d | %s" % (se, _s([v for row in sl for v in row])), impl,
+               {"selist": sl, "se": se}, nontrivial=bool(first), branch=br)
+    masks = {k: int(v) for k, v in n2p.mkusetmask().items()}
+    for _ in range(ctx.pick(100, 1000)):
+        if nodeids is None:
+            ctx.skip("n2p._get_node_ids is gone (private helper)")
+            break
+        rows, nas, style = _gen_table(ctx, masks)
+        if rng.random() < 0.3 and rows:  # a grid given DOF by DOF, or only some of its DOF listed (dof 1 missing)
+            k = rng.randrange(len(rows))
+            if rows[k][1] == 123456:
+                rows = [list(x) for x in rows]
+                nas = list(nas)
+                rows[k:k + 1] = [[rows[k][0], d] for d in range(1, 7)]
+                nas[k:k + 1] = [nas[k]] * 6
+        r = _call(n2p.make_uset, rows, nas)
+        if r[0] != "ok":
+            continue
+        uset = r[1]
+        if rng.random() < 0.3 and uset.shape[0] > 2:  # drop some rows: a node without its first DOF has no id
+            keep = sorted(rng.sample(range(uset.shape[0]), rng.randint(1, uset.shape[0] - 1)))
+            uset = uset.iloc[keep]
+        tbl = []
+        for (i, d), w in zip(uset.index.tolist(), uset["nasset"].values.tolist()):
+            tbl += [int(i), int(d), int(w)]
+        r = _call(nodeids, uset)
+        impl = ("ok " + _s(np.asarray(r[1]))).strip() if r[0] == "ok" else r[0]
+        nodes = len({int(i) for i in uset.index.get_level_values("id")})
+        br = "nodeids:" + ("one-per-node" if r[0] == "ok" and len(r[1]) == nodes else "fewer")
+        cs.add("nodeids", "nodeids | %s" % _s(tbl), impl, {"table": tbl}, nontrivial=True, branch=br)
+    # mat_intersect: the looped side reports its matching rows in their original order (descending / shuffled values)
+    fm = lambda D: " ; ".join(_s(r_) for r_ in D)
+    for _ in range(ctx.pick(300, 3000)):
+        keep = rng.choice([0, 1, 2, 2, 3, 5])
+        c = rng.choice([1, 1, 2])
+        pool = [[rng.randint(0, 9) for _ in range(c)] for _ in range(8)]
+        pool = [list(t) for t in dict.fromkeys(tuple(x) for x in pool)]
+        D1 = rng.sample(pool, rng.randint(1, len(pool)))
+        D2 = rng.sample(pool, rng.randint(1, len(pool)))
+        if rng.random() < 0.3:
+            D2 = sorted(D2, reverse=True)
+        a1, a2 = ([x[0] for x in D1], [x[0] for x in D2]) if c == 1 and rng.random() < 0.5 else (D1, D2)
+        r = _call(locate.mat_intersect, a1, a2, keep)
+        if r[0] == "ok":
+            pv1, pv2 = _il(r[1][0]), _il(r[1][1])
+            impl = "ok %s | %s" % (_s(pv1), _s(pv2))
+            sw = not ((keep == 0 and len(D1) <= len(D2)) or keep == 1)
+            looped, pvl = (D2, pv2) if sw else (D1, pv1)
+            vals = [looped[i] for i in pvl if 0 <= i < len(looped)]
+            br = "mat_intersect-order:" + ("unsorted-values" if vals != sorted(vals) else "sorted-values")
+            if vals != sorted(vals):
+                ctx.count("mat_intersect-order:keep%s" % (keep if keep < 3 else "-other"))
+        else:
+            impl, br = r[0], "mat_intersect-order:" + r[0]
+        cs.add("mat_intersect-order", "matint %d %d %d | %s | %s" % (keep, c, c, fm(D1), fm(D2)), impl,
+               {"D1": a1, "D2": a2, "keep": keep}, nontrivial=True, branch=br)
+
+
 def correspondence(ctx):
     cs = Cases(ctx)
     masks = _uset_streams(ctx, cs)
@@ -859,11 +1166,25 @@ def correspondence(ctx):
         _makeuset_xyz_stream(ctx, cs, masks)
         _nas_streams(ctx, cs)
     _locate_streams(ctx, cs)
+    _index_streams(ctx, cs)
+    _xyz_stream(ctx, cs)
     _float_streams(ctx, cs)
     rep = ctx.driver("C18").ask([it[1] for it in cs.items])
     for (stream, line, impl, inp, nontriv, branch), got in zip(cs.items, rep):
+        if stream == "find_xyz_triples":
+            got_c = " ".join(got.split())
+            if got_c == "borderline":  # a floating-point comparison within 1e-9 of its threshold: outside the domain
+                ctx.skip("find_xyz_triples: a comparison is within 1e-9 (relative) of its threshold")
+                continue
+            ctx.case(line, nontrivial=nontriv, branch=branch)
+            ctx.count("stream:" + stream)
+            if not _xyz_match(impl, got_c):
+                ctx.disagree(stream, inp, impl, got_c[:600])
+            continue
         ctx.case(line, nontrivial=nontriv, branch=branch)
         ctx.count("stream:" + stream)
+        if stream == "upqsetpv-separate-real":
+            ctx.extra.setdefault("separate_on_real_files", []).append([inp.get("file"), " ".join(got.split())])
         want = " ".join(impl.split())
         got_c = " ".join(got.split())
         if stream == "make_uset-xyz" and got_c == "type-error" and want == "value-error":
@@ -901,7 +1222,16 @@ def correspondence(ctx):
         "upasetpv:key-error", "upasetpv:index-error",
         "upqsetpv:some", "upqsetpv:none", "upqsetpv:recursive", "upqsetpv:spoint-rule", "upqsetpv:value-error",
         "upqsetpv:key-error", "nas-real-dictionary",
-    ] + ["nas-damage:" + w for w in __import__("props.c18_nas", fromlist=["DAMAGES"]).DAMAGES])
+        "upqsetpv:separate", "upqsetpv:separate-real", "upqsetpv:depth-3", "upqsetpv:depth-4",
+        "upqsetpv:several-upstream", "upqsetpv:several-upstream-above-residual", "upqsetpv:maps-reordered",
+        "upqsetpv:maps-reordered-above-residual", "upqsetpv:recursion-error", "upqsetpv:shared-boundary", "upqsetpv:later-upstream-overwrites", "upqsetpv:lean-examples", "nas-damage:upids-empty",
+        "xyz:all-rows", "xyz:some-rows", "xyz:none", "xyz-input:docstring", "xyz-input:rotation-rows",
+        "xyz-input:sheared", "xyz-input:perturbed", "xyz-input:exact-only", "xyz-input:row-deleted", "xyz-input:non-orthogonal",
+        "mat_intersect-order:unsorted-values", "mat_intersect-order:keep0", "mat_intersect-order:keep1",
+        "mat_intersect-order:keep2", "mat_intersect-order:keep-other",
+    ] + (["findse:absent", "findse:once", "findse:repeated"] if ctx.extra["private_helpers_present"]["_findse"] else [])
+      + (["nodeids:one-per-node", "nodeids:fewer"] if ctx.extra["private_helpers_present"]["_get_node_ids"] else [])
+      + ["nas-damage:" + w for w in __import__("props.c18_nas", fromlist=["DAMAGES"]).DAMAGES])
 
 
 # ---------------------------------------------------------------------------------------
@@ -1144,6 +1474,63 @@ def _oracle_maskplus(ctx, spec):
                  {"kind": "maskplus", "spec": spec}, r[0] if r[0] != "ok" else int(r[1]), want)
 
 
+def _oracle_xyz(ctx, nodes, tol, perturb=0.0):
+    """find_xyz_triples on a matrix of exact triples: node = (signed permutation as list of (column, sign), scale,
+    location); every row must be marked, coordinates = the location, scale = the scale.  With `perturb` = a fraction
+    (< 1) of the documented tolerance `tol * (largest model dimension)`, one rotation entry of the LAST node (which is in
+    the basic system at unit scale) is off by that much: it must still be found ("accept up to 1% errors")."""
+    n2p, _ = _mods()
+    rows, want_c, want_s = [], [], []
+    if perturb:
+        nodes = list(nodes[:-1]) + [([(0, 1), (1, 1), (2, 1)], 1, nodes[-1][2])]
+    for perm, sc, p in nodes:
+        T = np.zeros((3, 3))
+        for i, (j, sg) in enumerate(perm):
+            T[i, j] = sg
+        blk = sc * T @ np.hstack([np.eye(3), np.array(_skew(p), dtype=float)])
+        rows += blk.tolist()
+        want_c += [list(map(float, p))] * 3
+        want_s += [float(sc)] * 3
+    inp = {"kind": "xyz", "nodes": [[list(map(list, perm)), sc, list(p)] for perm, sc, p in nodes], "tol": tol,
+           "perturb": perturb}
+    delta = 0.0
+    if perturb:
+        big = max(abs(v) for _, _, p in nodes for v in p)
+        delta = perturb * tol * big
+        rows[-3][4] += delta  # entry (x row, ry column) of the last node
+    r = _call(n2p.find_xyz_triples, np.array(rows), tol=tol)
+    if r[0] != "ok":
+        ctx.fail("find-xyz-triples-exact-raises", "find_xyz_triples raises on a matrix of exact triples", inp, r[0], "all rows")
+        return
+    t = r[1]
+    ok = bool(np.all(t.pv)) and np.allclose(t.coords, want_c, rtol=0, atol=1e-9 + delta) and \
+        np.allclose(t.scales, want_s, rtol=1e-12, atol=0)
+    if not ok:
+        kind_ = "within-tolerance" if perturb else "exact"
+        ctx.fail("find-xyz-triples-%s-node-missed" % kind_ if not np.all(t.pv) else "find-xyz-triples-%s-wrong-location" % kind_,
+                 "every exact x, y, z triple must be marked, with its location and scale", inp,
+                 {"pv": [int(v) for v in t.pv], "coords": np.asarray(t.coords).tolist(), "scales": np.asarray(t.scales).tolist()},
+                 {"pv": "all", "coords": want_c, "scales": want_s})
+
+
+def _oracle_findse(ctx, selist, se):
+    """n2p._findse (private; used by upasetpv to find the downstream SE): the first row whose first column is `se`"""
+    n2p, _ = _mods()
+    fn = getattr(n2p, "_findse", None)
+    if fn is None:
+        return
+    r = _call(fn, {"selist": np.array(selist, dtype=np.int64).reshape(-1, 2)}, se)
+    first = [k for k, row in enumerate(selist) if row[0] == se]
+    inp = {"kind": "findse", "selist": selist, "se": se}
+    if not first:
+        if r[0] != "value-error":
+            ctx.fail("findse-absent-se-not-refused", "an SE that is in no row of selist must raise ValueError", inp,
+                     r[0] if r[0] != "ok" else int(r[1]), "ValueError")
+    elif r[0] != "ok" or int(r[1]) != first[0]:
+        ctx.fail("findse-wrong-row", "the row of the FIRST selist entry of the SE", inp,
+                 r[0] if r[0] != "ok" else int(r[1]), first[0])
+
+
 def _oracle_locate(ctx, kind, inp):
     _, locate = _mods()
     if kind == "dups":
@@ -1319,6 +1706,11 @@ def _run_one(ctx, inp):
         _oracle_makeuset(ctx, inp)
     elif k == "maskplus":
         _oracle_maskplus(ctx, inp["spec"])
+    elif k == "findse":
+        _oracle_findse(ctx, inp["selist"], inp["se"])
+    elif k == "xyz":
+        _oracle_xyz(ctx, [([tuple(x) for x in perm], sc, tuple(p)) for perm, sc, p in inp["nodes"]], inp["tol"],
+                    inp.get("perturb", 0.0))
 
 
 def _hint_to_input(h):
@@ -1347,8 +1739,10 @@ def _hint_to_input(h):
             return dict(i, kind="funique")
         if s == "list_intersect-mixed":
             return dict(i, kind="lint")
-        if s == "mat_intersect":
-            return dict(i, kind="matint")
+        if s in ("mat_intersect", "mat_intersect-order"):
+            return dict(i, kind="matint") if i["keep"] in (0, 1, 2) else None  # other values are undocumented
+        if s == "findse":
+            return dict(i, kind="findse")
         if s == "find_subseq":
             return dict(i, kind="subseq")
         if s in ("flippv", "index2bool"):
@@ -1440,9 +1834,24 @@ def search(ctx, hints):
         ctx.count("oracle:maskplus")
     # base stream 2c: upasetpv / upqsetpv on generated dictionaries (expected vectors known by construction)
     from props import c18_nas as N
-    for _ in range(ctx.pick(120, 1200)):
-        nas, info = N.gen_nas(rng)
+    for it in range(ctx.pick(120, 1200)):
+        nas, info = N.gen_nas(rng, deep=(3 + it // 8 % 2) if it % 8 == 0 else None)
         plain = N.to_plain(nas)
+        if info["depth"] >= 3:
+            ctx.count("oracle:upqsetpv-depth-3-or-4")
+        sl = [[rng.choice([0, 10, 20, 30]), rng.choice([0, 10])] for _ in range(rng.randint(0, 5))]
+        _oracle_findse(ctx, sl, rng.choice([0, 10, 20, 30, 7]))
+        ctx.count("oracle:findse")
+        nodes = []
+        for _ in range(rng.randint(1, 4)):
+            cols = rng.sample(range(3), 3)
+            nodes.append(([(j, rng.choice([1, -1])) for j in cols], rng.choice([1, 1, 2, 0.5, 10, 3, 0.00259]),
+                          tuple(rng.randint(-32, 32) / 4 for _ in range(3))))
+        _oracle_xyz(ctx, nodes, rng.choice([0.01, 0.01, 0.001, 0.1]))
+        if len(nodes) > 1 and max(abs(v) for _, _, p in nodes for v in p) >= 2:
+            _oracle_xyz(ctx, nodes, rng.choice([0.01, 0.05]), perturb=rng.choice([0.25, 0.5, 0.75]))
+            ctx.count("oracle:find_xyz_triples-within-tolerance")
+        ctx.count("oracle:find_xyz_triples")
         for c, exp in info["expected_upa"].items():
             _oracle_nas(ctx, {"nas": plain, "seup": c, "expected": exp, "style": info["style"]})
             ctx.count("oracle:upasetpv")
@@ -1458,7 +1867,7 @@ def search(ctx, hints):
             c = rng.randint(1, 3)
             d1 = [[rng.randint(0, 2) for _ in range(c)] for _ in range(rng.randint(1, 6))]
             d2 = [[rng.randint(0, 2) for _ in range(c)] for _ in range(rng.randint(1, 6))]
-        _oracle_locate(ctx, "matint", {"D1": d1, "D2": d2, "keep": rng.choice([0, 1, 2])})
+        _oracle_locate(ctx, "matint", {"D1": d1, "D2": d2, "keep": rng.choice([0, 1, 2, 2])})
         _oracle_locate(ctx, "subseq", {"seq": _gen_intlist(rng, 0, 2, 10, 1), "subseq": _gen_intlist(rng, 0, 2, 3, 1)
                                        if rng.random() < 0.8 else _gen_intlist(rng, 0, 1, 12, 1)})
         n = rng.randint(0, 8)
